@@ -211,6 +211,11 @@ def _drive(ctx, fs, kind, cap, ops, keytype):
                         other[next(iter(other))] = "other"
                         r2 = run("==", lambda: c == other)
                         ctx.need(r2 is False, "%s/==/equal-to-different-dict" % name, "cache == dict with a different value")
+                        twin = type(c)(max(cap, len(d)))
+                        for kk, vv in d.items():
+                            twin[kk] = vv
+                        r3 = run("==", lambda: c == twin)
+                        ctx.need(r3 is True, "%s/==/unequal-to-cache-with-same-content" % name, lambda: "cache == other cache with the same items is %r" % (r3,))
                 if op in ("values", "items", "eq"):
                     if n >= 2:
                         ctx.label("view-op>=2")
@@ -225,8 +230,8 @@ def _drive(ctx, fs, kind, cap, ops, keytype):
                                         lambda: "view operation changed the key set: %r vs %r" % (now, d)):
                             raise _Stop()
                         cands = {(p, now) for p, _ in cands}
-                    else:  # counts unchanged, or every present key used once (twice for the two == calls)
-                        reps = 2 if op == "eq" and d else 1
+                    else:  # counts unchanged, or every present key used once (once per == call)
+                        reps = 3 if op == "eq" and d else 1
                         new = set(cands)
                         for _ in range(reps):
                             new |= {(p, frozenset((a, b + 1) for a, b in m)) for p, m in new}
@@ -337,6 +342,9 @@ def decode(code, restore_heavy):
     x //= nkeys
     v = x % 100
     x //= 100
+    if x % 2 == 0:
+        v = v % 4       # a small value pool: re-stores of the very same value object are common (identity-based shortcuts)
+    x //= 2
     if op in ("set", "setdefault"):
         return [op, k, v]
     if op in ("get", "del", "in", "getd", "pop"):
